@@ -12,6 +12,7 @@ import Proofs.XdrEnc
 import Proofs.XdrDec
 import Proofs.XdrSize
 import Proofs.XdrPrefix
+import Proofs.DodsSrc
 namespace Pydap.C05
 open Pydap Pydap.Xdr
 
@@ -144,5 +145,59 @@ example : ∀ x, decImpl exS ((XdrSpec.enc exS exSD).take 16) ≠ .ok x :=
 example : ∃ dds0, ∀ i, i < dds0.length →
     ¬ splitPattern.isPrefixOf ((dds0 ++ splitPattern ++ encImpl exT exD).drop i) = true :=
   ⟨[32], by decide⟩
+
+/-! ### the tie by translation: the *source text* of the size and padding arithmetic computes the model
+
+`Pydap.Gen.src_…` (PydapModel/Generated/DodsSrc.lean) are MiniPy syntax trees regenerated from `responses/dods.py` and
+`handlers/dap.py` on every run by `harness/py2lean.py`.  Inputs of the `calculate_size` block that the fragment does
+not interpret are variables: `@is_ubyte` stands for `DAP2_dtype == np.ubyte`, `@itemsize` for `DAP2_dtype.itemsize`
+(the dtype map itself is a generated table), `@dds_len` for `len("".join(dds(dataset)))`. -/
+
+open MiniPy in
+/-- `calculate_size`, one turn of the loop on a non-string BaseType: `length` grows by exactly `calcData (.base ty shape)`
+    (array marker 8 when the shape is non-empty, `size + (-size % 4)` for bytes, `size * itemsize` otherwise),
+    for every running length, wire type and shape -/
+theorem C05_source_calculate_size_base (L : Nat) (ty : Ty) (shape : List Nat) (hS : wireChar ty ≠ 'S') :
+    ∃ n, calcData (.base ty shape) = some n ∧
+      runItem (calcEnv L ty shape) Gen.src_calculate_size_base "length" = .ok (.int ((L + n : Nat) : Int)) :=
+  src_calculate_size_base_eq L ty shape hS
+
+open MiniPy in
+/-- `calculate_size`, after the loop: `length += len(dds) + len(b"Data:\n"); return length` returns `calcSize` -/
+theorem C05_source_calculate_size_tail (dds : Bytes) (t : Tmpl) (n : Nat) (hn : calcData t = some n) :
+    ∃ m, calcSize dds t = some m ∧
+      runItem [("length", .int n), ("@dds_len", .int dds.length)] Gen.src_calculate_size_tail "@ret"
+        = .ok (.int (m : Nat)) :=
+  src_calculate_size_tail_eq dds t n hn
+
+open MiniPy in
+/-- the encoder's three padding counts `-length % 4` (`_sequencetype`: 1, `_basetype`: 2) are `pad4` -/
+theorem C05_source_encoder_paddings (n : Nat) :
+    runItem [("length", .int n)] Gen.src_dods_paddings "@seqpad0" = .ok (.int (pad4 n : Nat)) ∧
+    runItem [("length", .int n)] Gen.src_dods_paddings "@pad0" = .ok (.int (pad4 n : Nat)) ∧
+    runItem [("length", .int n)] Gen.src_dods_paddings "@pad1" = .ok (.int (pad4 n : Nat)) :=
+  src_dods_paddings_eq n
+
+open MiniPy in
+/-- the decoder's three padding reads `stream.read(-k % 4)` / `stream.read(-n % 4)` of `convert_stream_to_list` are `pad4` -/
+theorem C05_source_decoder_paddings (n : Nat) :
+    runItem [("k", .int n), ("n", .int n)] Gen.src_convert_stream_paddings "@pad0" = .ok (.int (pad4 n : Nat)) ∧
+    runItem [("k", .int n), ("n", .int n)] Gen.src_convert_stream_paddings "@pad1" = .ok (.int (pad4 n : Nat)) ∧
+    runItem [("k", .int n), ("n", .int n)] Gen.src_convert_stream_paddings "@pad2" = .ok (.int (pad4 n : Nat)) :=
+  src_convert_stream_paddings_eq n
+
+-- non-vacuity: a Byte array of 3 elements after 10 bytes (8 + 3 + 1), an Int16 scalar (upconverted to 4 bytes)
+open MiniPy in
+example : runItem (calcEnv 10 .byte [3]) Gen.src_calculate_size_base "length" = .ok (.int 22) := by rfl
+open MiniPy in
+example : runItem (calcEnv 0 .int16 []) Gen.src_calculate_size_base "length" = .ok (.int 4) := by rfl
+example : wireChar .byte ≠ 'S' ∧ wireChar .int16 ≠ 'S' := by decide
+open MiniPy in
+example : runItem [("length", .int 56), ("@dds_len", .int 2)] Gen.src_calculate_size_tail "@ret" = .ok (.int 64) := by
+  rfl
+open MiniPy in
+example : runItem [("length", .int 5)] Gen.src_dods_paddings "@pad1" = .ok (.int 3) := by rfl
+open MiniPy in
+example : runItem [("k", .int 6), ("n", .int 6)] Gen.src_convert_stream_paddings "@pad2" = .ok (.int 2) := by rfl
 
 end Pydap.C05
